@@ -65,6 +65,7 @@ var frags = map[string]frag{
 	"nestE2":   {src: "FnestD EN3", dst: "FnestD EN4", notes: []string{":conv CvE3 FnestD.In.X FnestD.In.X"}, scalars: []string{"FnestD.In.X:int", "FnestD.In.Y:string", "FnestD.K:int"}},
 	"ptr":      {src: "Fptr *int", dst: "Fptr *int"},
 	"npath":    {src: "Pn *EN", dst: "Fnp int", notes: []string{":map Pn.X Fnp"}, scalars: []string{"Fnp:int"}},
+	"skipci":   {src: "Fskipci int", dst: "Fskipci int", notes: []string{":skip fskipci", ":case:off"}, scalars: []string{"Fskipci:int"}},
 	"skip":     {src: "Fskip int", dst: "Fskip int", notes: []string{":skip Fskip"}, scalars: []string{"Fskip:int"}},
 	"nomatch":  {dst: "Fnomatch int", scalars: []string{"Fnomatch:int"}},
 }
